@@ -33,13 +33,13 @@ inductive Op where
   | reset (q : Nat)
   | resetAll
   | barrier (bits : List Nat)
-deriving Repr
+deriving Repr, Inhabited
 
 /-- one shot: basis state (value of every qubit) and register word -/
 structure Shot where
   qs : List Bool
   word : Word
-deriving DecidableEq, Repr
+deriving DecidableEq, Repr, Inhabited
 
 def initShot (nq : Nat) : Shot := ⟨List.replicate nq false, 0⟩
 
@@ -143,25 +143,48 @@ def runShot (be : Backend) (nq : Nat) : List Op → Shot → Res (List Shot)
     | .err c p => .err c p
     | .panic site => .panic site
 
-/-- Operations that, with zero shots, reach `collect_conditional_ranges(&[0], &[])` and its
-`control[0]` index panic (D9): any conditional gate, and the vector backend's `reset`
-(measure + conditional X). -/
-def zeroShotPanics (be : Backend) : Op → Bool
-  | .cond .. => true
-  | .reset _ => be == .vector
-  | _ => false
+/-- What is left of a `VectorState` that was created for zero shots (`counts = [0]`):
+* `fresh`: `counts = [0]` and a finite coefficient column;
+* `poisoned`: `counts = [0]` and a column of NaN/∞ — `measure_into` found probability 0 for the
+  outcome it "collapses" zero shots to (`n0 == count` holds as `0 == 0`) and scaled the column by
+  `1/sqrt(0)`;
+* `empty`: `counts = []`, no columns — after a collapsing `measure_all`, whose sample map is empty. -/
+inductive ZeroVec where
+  | fresh | poisoned | empty
+deriving DecidableEq, Repr
 
-/-- A run with zero shots: every guard computed before the per-shot loops (length checks, the
-masks `1 << cbit`) is still evaluated — it is the outcome for a dummy shot —, except the per-shot
-shifts of the control gather; then the D9 panic. -/
-def runEmpty (be : Backend) (nq : Nat) : List Op → Res Unit
-  | [] => .ok ()
-  | op :: ops =>
-    if zeroShotPanics be op then .panic "collect_conditional_ranges control[0]"
-    else match stepShot be nq op (initShot nq) with
-      | .ok _ => runEmpty be nq ops
-      | .err c p => .err c p
-      | .panic site => .panic site
+/-- A run with zero shots.  Every guard computed before the per-shot loops (length checks, the masks
+`1 << cbit`) is still evaluated: it is the outcome of `stepShot` on a dummy shot that carries the
+basis state.  On top of that (D9):
+* a conditional gate — and the vector backend's `reset`, which is measure + conditional X — reaches
+  `collect_conditional_ranges(&[0], &[])` and its `control[0]` index panic while `counts = [0]`;
+* on the vector backend `measure_all`/`peek_all` of a poisoned column panic in
+  `WeightedIndex::new(..).unwrap()`; once `counts = []` nothing panics any more. -/
+def runEmpty (be : Backend) (nq : Nat) : List Op → ZeroVec → Shot → Res Unit
+  | [], _, _ => .ok ()
+  | op :: ops, z, s =>
+    match stepShot be nq op s with
+    | .err c p => .err c p
+    | .panic site =>
+      -- the per-shot shifts of the control gather are not evaluated without shots
+      (match op with
+       | .cond .. => if be == .vector && z == .empty then runEmpty be nq ops z s
+                     else .panic "collect_conditional_ranges control[0]"
+       | _ => .panic site)
+    | .ok s' =>
+      match be, op with
+      | .stabilizer, .cond .. => .panic "collect_conditional_ranges control[0]"
+      | .stabilizer, _ => runEmpty be nq ops z s'
+      | .vector, .cond .. | .vector, .reset _ =>
+        if z == .empty then runEmpty be nq ops z s' else .panic "collect_conditional_ranges control[0]"
+      | .vector, .measure q _ =>
+        runEmpty be nq ops (if z == .fresh && outcomeOf s.qs q then .poisoned else z) s'
+      | .vector, .measureAll _ =>
+        if z == .poisoned then .panic "WeightedIndex::new unwrap" else runEmpty be nq ops .empty s'
+      | .vector, .peekAll _ =>
+        if z == .poisoned then .panic "WeightedIndex::new unwrap" else runEmpty be nq ops z s'
+      | .vector, .resetAll => runEmpty be nq ops .fresh s'
+      | .vector, _ => runEmpty be nq ops z s'
 
 /-- `execute_with(nr_shots, ..)`: the register is zeroed, all shots start in |0…0⟩.  Result: for
 every shot its trace.  The builder checks come first (a rejected operation is never added). -/
@@ -170,7 +193,7 @@ def run (be : Backend) (nq nc nshots : Nat) (ops : List Op) : Res (List (List Sh
   | .err c p => .err ("build:" ++ c) p
   | .panic s => .panic s
   | .ok () =>
-    if nshots = 0 then (runEmpty be nq ops).map (fun _ => [])
+    if nshots = 0 then (runEmpty be nq ops .fresh (initShot nq)).map (fun _ => [])
     else Res.mapM (runShot be nq ops) (List.replicate nshots (initShot nq))
 
 /-! ### histogram views -/
